@@ -248,6 +248,49 @@ def judge(case):
         shutil.rmtree(d, ignore_errors=True)
 
 
+F15_PROBE = {"b_alg": "cube4D", "n_b": 8, "o_alg": "ico", "n_o": 1, "radii": ["0.100", "0.200", "0.300", "0.400"], "factor": 2.0,
+             "cartesian": False, "e_seed": 15, "e_sigma": 2.0, "e_shift": 0.0, "T": 300.0, "D": 1.0, "e_ramp": None}
+
+
+def _f15_probe(k):
+    """The recorded setting of known finding F15 (32 cells, k = 12, regular mode), judged on every run. Which call misses the
+    zero eigenvalue depends on ARPACK's internal start vector, so the case is judged up to twelve times; it is reported as
+    KNOWN-FINDING as soon as one call misses it (observed rate 39 of 60), and any other failure is a violation as usual."""
+    res = Result()
+    case = dict(F15_PROBE, e_seed=15 + k)
+    hit = False
+    for _ in range(12):
+        msgs, info = judge(dict(case))
+        if msgs:
+            res.violation(case, "; ".join(msgs[:3]))
+            break
+        if info.get("f15_regular_mode_missing_eigenvalue"):
+            hit = True
+            break
+    res.case(sample=dict(case, f15_observed=hit), nontrivial=True, key=case, classes=["f15_probe"] + (["f15_observed"] if hit else []))
+    if hit:
+        k15 = [e for e in load_known("C14") if e["id"] == "F15"]
+        if k15:
+            res.known_finding(k15[0]["key"], k15[0]["what"])
+        else:
+            res.violation(case, "regular-mode decomposition misses an eigenvalue above the smallest returned one")
+    return res
+
+
+def _f8_probe(_):
+    """The recorded input of known finding F8 (Cartesian mode, ico_4), judged on every run."""
+    res = Result()
+    case = dict(F15_PROBE, o_alg="ico", n_o=4, n_b=4, radii=["0.200", "0.400"], cartesian=True)
+    msgs, info = judge(dict(case))
+    known = f8_predicate(case)
+    res.case(sample=case, nontrivial=True, key=case, classes=["f8_probe"])
+    if msgs and known is not None:
+        res.known_finding(known["key"], known["what"])
+    elif msgs:
+        res.violation(case, "; ".join(msgs[:3]))
+    return res
+
+
 def _shard(arg):
     shard, n_examples, max_b, max_o = arg
     from hypothesis import given, strategies as st
@@ -321,7 +364,9 @@ def replay(case):
 
 def run(tier):
     total, max_b, max_o = (96, 16, 20) if tier == "quick" else (960, 40, 40)
-    res = merge_results(pmap(_shard, [(s, total // 16, max_b, max_o) for s in range(16)]))
+    results = pmap(_shard, [(s, total // 16, max_b, max_o) for s in range(16)])
+    results += pmap(_f15_probe, [0, 1, 2]) + pmap(_f8_probe, [0, 1])
+    res = merge_results(results)
     rule = (f"Hypothesis: grids as in C02 (n_b = 1 or 4..{max_b}, n_o 1..{max_o}, 2..4 radii, <=600 cells, both position modes, five "
             f"factors), energies = seeded normal vector with sigma in {{0, 0.5, 2, 6, 60, 200}} kJ/mol (span clipped to 470, below the cap) and shift in {{0, -250, 40}}, T in "
             f"{{150, 200, 273.15, 300, 400}} K, D in {{0.1, 1, 10}}; solver settings (LR, no shift) and (LM, shift = spectral radius, never an "
